@@ -20,6 +20,7 @@ import (
 	"strconv"
 	"strings"
 	"sync"
+	"sync/atomic"
 	"syscall"
 	"time"
 
@@ -82,9 +83,11 @@ func fmtSamples(res shot.Result, withID bool) string {
 // up one ephemeral port per case for a minute (its TIME_WAIT children) and exhaust the listen half of the port range on a
 // long thorough run.
 var (
-	tgtMu                                 sync.Mutex
-	tgtGiveUp                             time.Time // retries (of all targets together) end here
-	tgtAddr, tls1Addr, tls2Addr, grpcAddr string
+	tgtMu                        sync.Mutex
+	tgtGiveUp                    time.Time // retries (of all targets together) end here
+	tls1Addr, tls2Addr, grpcAddr string
+	tgtPool                      [8]string
+	tgtNext                      atomic.Int64
 )
 
 // startRetry calls start (which panics when the host has no free port to listen on: other checks share the machine)
@@ -117,8 +120,12 @@ func startRetry(addr *string, start func() string) string {
 	panic(fmt.Sprint("no target: ", last))
 }
 
+// sharedTarget: one of a small pool of raw scripted targets (spreads the connections of a long run over several
+// destination ports, so that a client port is not reused against the same listener while the previous connection is
+// still in TIME_WAIT there).
 func sharedTarget() string {
-	return startRetry(&tgtAddr, func() string { return shot.NewTarget().Addr })
+	i := int(tgtNext.Add(1)) % len(tgtPool)
+	return startRetry(&tgtPool[i], func() string { return shot.NewTarget().Addr })
 }
 
 func sharedTLS(h2 bool) string {
@@ -663,8 +670,48 @@ func runGrpcDirect(m map[string]string) string {
 
 // ---------------------------------------------------------------- dispatch, generation
 
+// suspicious: the observation shows something the case did not script and that an overloaded host produces by itself
+// (other checks run on the same machine): an engine run that did not end, a dial / TLS-handshake / response timeout
+// without a silent target, a client-side gRPC Unavailable / DeadlineExceeded, exhausted ports or descriptors.
+func suspicious(m map[string]string, input, obs string) bool {
+	if strings.Contains(obs, "res=hang") || strings.Contains(obs, "errno99") || strings.Contains(obs, "errno24") ||
+		strings.Contains(obs, "address already in use") || strings.Contains(obs, "warmup-error") || strings.Contains(obs, "bind-error") {
+		return true
+	}
+	switch m["k"] {
+	case "http", "scn":
+		return !strings.Contains(input, "acthang") && (strings.Contains(obs, "timeout") || strings.Contains(obs, ":tmo"))
+	case "grpc", "grpcscn", "grpcdirect":
+		if strings.Contains(input, ",hang,") {
+			return false
+		}
+		scripted := strings.Count(input, ",code,14") + strings.Count(input, ",code,4,") + strings.Count(input, ",code,4;")
+		if strings.HasSuffix(input, ",code,4") {
+			scripted++
+		}
+		n := atoi(m["n"], 1)
+		return strings.Count(obs, ":503:")+strings.Count(obs, ":504:") > scripted*n
+	case "ids":
+		// samples missing (requests that never got through); duplicate ids are NOT retried: they are the finding
+		return !strings.Contains(obs, fmt.Sprintf("count=%d ", atoi(m["n"], 100)))
+	}
+	return false
+}
+
+// run executes one case; a suspicious observation is re-taken (twice at most, after a pause): what the code does
+// deterministically shows again, what the loaded host did does not.
 func run(input string) string {
 	m := drv.KV(input)
+	obs := run1(m)
+	for try := 0; try < 2 && suspicious(m, input, obs); try++ {
+		retries.Add(1)
+		time.Sleep(time.Duration(2+3*try) * time.Second)
+		obs = run1(m)
+	}
+	return obs
+}
+
+func run1(m map[string]string) string {
 	switch m["k"] {
 	case "http":
 		return runHTTP(m)
@@ -836,7 +883,7 @@ func gen(r *rand.Rand, tier string) []string {
 	}
 	var out []string
 	// 1. every status 100..599, exhaustively, in runs of 50; settings and option dimensions rotate
-	for rep := 0; rep < pick(1, 24); rep++ {
+	for rep := 0; rep < pick(1, 6); rep++ {
 		for base := 100; base < 600; base += 50 {
 			var reqs []string
 			for st := base; st < base+50; st++ {
@@ -851,7 +898,7 @@ func gen(r *rand.Rand, tier string) []string {
 		}
 	}
 	// 2. failure kinds x guns x redirecting client x option dimensions
-	for rep := 0; rep < pick(1, 40); rep++ {
+	for rep := 0; rep < pick(1, 12); rep++ {
 		for _, gun := range []string{"http", "connect"} {
 			for _, redir := range []string{"", "redir=1"} {
 				var reqs []string
@@ -887,7 +934,7 @@ func gen(r *rand.Rand, tier string) []string {
 	}
 	// 4. TLS: http2 gun against an HTTP/2 target; http gun with ssl against an HTTP/1.1 TLS target; the documented fatal
 	// condition (http2 gun, target without HTTP/2)
-	for rep := 0; rep < pick(1, 30); rep++ {
+	for rep := 0; rep < pick(1, 10); rep++ {
 		for _, gt := range [][3]string{{"http2", "tls2", ""}, {"http", "tls1", "ssl=1"}} {
 			var reqs []string
 			for _, st := range []int{200, 201, 204, 301, 400, 404, 418, 500, 503, 599} {
@@ -915,7 +962,7 @@ func gen(r *rand.Rand, tier string) []string {
 	}
 	// 5a. tag / auto-tag settings x URI shapes, EXHAUSTIVELY over all paths of length <= n over {'/','a'}:
 	// enabled x no-tag-only x uri-elements 1..4 x (tagged | untagged ammo)
-	paths := allPaths(pick(4, 9))
+	paths := allPaths(pick(4, 8))
 	for _, auto := range []bool{false, true} {
 		for _, nto := range []bool{false, true} {
 			for el := 1; el <= 4; el++ {
@@ -939,7 +986,7 @@ func gen(r *rand.Rand, tier string) []string {
 		}
 	}
 	// 5b. random settings x URI shapes x outcomes x option dimensions
-	nTag := pick(40, 12000)
+	nTag := pick(40, 2500)
 	for i := 0; i < nTag; i++ {
 		var reqs []string
 		for j := 0; j < 12; j++ {
@@ -950,9 +997,9 @@ func gen(r *rand.Rand, tier string) []string {
 	}
 	// 5c. SEVERAL concurrently shooting instances: every ammo carries the unique tag r<i>, so that each sample can be
 	// attributed to its request whatever id the interleaving of the Acquire calls gave it
-	nMulti := pick(12, 6000)
+	nMulti := pick(12, 500)
 	for i := 0; i < nMulti; i++ {
-		n := 8 + r.Intn(pick(24, 120))
+		n := 8 + r.Intn(pick(24, 72))
 		var reqs []string
 		for j := 1; j <= n; j++ {
 			uri, path := randURI(r)
@@ -964,7 +1011,7 @@ func gen(r *rand.Rand, tier string) []string {
 		out = append(out, httpCase([]string{"http", "http", "connect"}[r.Intn(3)], "live", r.Intn(2) == 0, 1+r.Intn(3), false, extra, reqs))
 	}
 	// 6. http scenarios (plain and over HTTP/2)
-	nScn := pick(30, 16000)
+	nScn := pick(30, 5000)
 	for i := 0; i < nScn; i++ {
 		k := 1 + r.Intn(4)
 		h2 := i%10 == 9
@@ -1039,7 +1086,7 @@ func gen(r *rand.Rand, tier string) []string {
 		}
 		out = append(out, "k=grpc reqs="+strings.Join(reqs, ";"), "k=grpc to=700 alog=all reqs=hg,hang,0;,ok,0")
 	}
-	nG := pick(6, 4000)
+	nG := pick(6, 1500)
 	for i := 0; i < nG; i++ {
 		var reqs []string
 		for j := 0; j < 10; j++ {
@@ -1053,7 +1100,7 @@ func gen(r *rand.Rand, tier string) []string {
 		out = append(out, "k=grpc"+opts+" reqs="+strings.Join(reqs, ";"))
 	}
 	// 8. gRPC scenarios
-	nGS := pick(12, 8000)
+	nGS := pick(12, 3000)
 	for i := 0; i < nGS; i++ {
 		k := 1 + r.Intn(4)
 		var calls []string
@@ -1177,8 +1224,11 @@ func class(input, obs string) string {
 	return c
 }
 
+var retries atomic.Int64
+
 func main() {
 	_ = sort.Strings
+	defer func() { fmt.Fprintf(os.Stderr, "c10: %d observations re-taken (suspected host overload)\n", retries.Load()) }()
 	drv.Main(&drv.Prop{
 		ID:      "C10",
 		Gen:     gen,
